@@ -248,7 +248,7 @@ func buildTown(r *Run, opts TownOpts) *Town {
 		for k := t.Weighted(3, 1, 1); k > 0; k-- {
 			p.Attachments = append(p.Attachments, tn.link([]string{"Image", "Video", "Document", "Link", "Audio"}[t.Draw(5)]))
 		}
-		if len(p.BodyLinks) > 0 && len(p.Attachments) > 0 && t.Chance(1, 5) {
+		if len(p.BodyLinks) > 0 && len(p.Attachments) > 0 && t.Chance(1, 4) {
 			// the text links to the very thing that is also attached (Lemmy and Mastodon do that):
 			// two numbered links with one address
 			p.Attachments[t.Draw(len(p.Attachments))].Href = p.BodyLinks[t.Draw(len(p.BodyLinks))]
